@@ -3,26 +3,25 @@ import numpy as np
 
 from .. import sx, lib, meaning as M, gateset, refexec
 
-NATIVE = None
+NATIVE = {}
 BUDGET_PER_NODE = 400
 
 
-def native():
-    global NATIVE
-    if NATIVE is None:
-        NATIVE = gateset.make()
-    return NATIVE
+def native(variant="A"):
+    if variant not in NATIVE:
+        NATIVE[variant] = gateset.make(variant=variant)
+    return NATIVE[variant]
 
 
 class Setup:
     pass
 
 
-def setup(prog, ov=None, text=None, validate=True):
+def setup(prog, ov=None, text=None, validate=True, variant="A"):
     """Parse with the harness gate set and build the reference Program.
     Returns (status, Setup|None); status 'ok' | 'skipped:...' | 'inconclusive:...'."""
     text = text if text is not None else sx.to_text(prog)
-    o = lib.outcome(lib.parse, text, native())
+    o = lib.outcome(lib.parse, text, native(variant))
     s = Setup()
     s.text = text
     s.parse_outcome = o
@@ -44,7 +43,7 @@ def setup(prog, ov=None, text=None, validate=True):
         return "skipped:no-reference-meaning:" + ex.kind, s
     except M.OracleError as ex:
         return "inconclusive:oracle:%s" % ex, s
-    s.P = refexec.Program(s.tree, s.n)
+    s.P = refexec.Program(s.tree, s.n, variant=variant)
     return "ok", s
 
 
